@@ -9,7 +9,7 @@ LEVEL = 'model_checking'
 RULE = ('(1) every cell of a boundary coordinate set (columns around Z/AA, AZ/BA, ZZ/AAA and XFD, rows around 9/10, 99/100 '
         'and 1048576) and every range between two such corners x a sheet-name pool: address, quoted_address and '
         'abs_address parse back to the same object, A1 / R1C1 / tuple notations are equal; (2) all rectangles of a 4x4 '
-        '(5x5 thorough) grid: resolve_range has height x width distinct member cells all contained in the range; all '
+        '(6x6 thorough: 441 rectangles, 85 million triples) grid: resolve_range has height x width distinct member cells all contained in the range; all '
         'pairs and all triples: intersection == set intersection (or #NULL!), union == bounding box, commutative, '
         'associative, idempotent, absorption; (3) relative R1C1 offsets and address_at_offset from every anchor of the '
         'boundary set wrap modulo 16384 / 1048576 and agree with each other; unbounded rows/columns round trip. '
@@ -335,8 +335,8 @@ def run(ctx):
     n = 16
     sh = SHEETS[ctx.seed % len(SHEETS):] + SHEETS[:ctx.seed % len(SHEETS)]
     ctx.pmap(work_roundtrip, [(sh if ctx.thorough else sh[:6] + ["a 'q' b"], k, n) for k in range(n)], timeout=3000)
-    g = 5 if ctx.thorough else 4
-    m = 64
+    g = 6 if ctx.thorough else 4
+    m = 64 if not ctx.thorough else 441
     ctx.pmap(work_lattice, [(g, k, m, True) for k in range(m)], timeout=6000)
     ctx.pmap(work_offsets, [(k, n) for k in range(n)], timeout=3000)
     ctx.counts['traces_validated_against_impl'] = ctx.counts.get('evaluations', 0)
